@@ -69,6 +69,10 @@ func (v *Val) Coq() string {
 	case "bytes":
 		return "(VBytes " + hx.CoqBytes(v.S) + ")"
 	case "enum":
+		if v.Z < 0 {
+			// Go enum constants are int32: a negative constant is just another illegal constant for the model (nat)
+			return fmt.Sprintf("(VEnum %d)", 1000000-v.Z)
+		}
 		return fmt.Sprintf("(VEnum %d)", v.Z)
 	case "fixed":
 		return "(VFixed " + hx.CoqBytes(v.S) + ")"
